@@ -60,53 +60,63 @@ NSMAP = {'tns': 'tns', None: 'tns', 'xs': XSD_NS, 'q': 'urn:elsewhere'}
 XSI_TYPE = '{%s}type' % XSI_NS
 
 
-def resolvable_keys():
-    """every 'prefix:Name' / 'Name' spelling that resolves to a class registered in the interface"""
+NSMAPS = {'default=tns': {'tns': 'tns', None: 'tns', 'xs': XSD_NS, 'q': 'urn:elsewhere'},
+          'default=foreign': {'tns': 'tns', None: 'urn:elsewhere', 'xs': XSD_NS},
+          'no default': {'tns': 'tns', 'xs': XSD_NS}}
+
+
+def resolvable_keys(nsmap):
+    """every 'prefix:Name' / 'Name' spelling that resolves, in this scope, to a class registered in the interface"""
     out = {}
     for key, cls in APP.interface.classes.items():
         if not key.startswith('{') or '}' not in key:
             continue
         ns, name = key[1:].split('}', 1)
-        for pfx, uri in NSMAP.items():
+        for pfx, uri in nsmap.items():
             if uri == ns:
                 out[(pfx + ':' + name) if pfx else name] = cls
     return out
 
 
-RESOLVABLE = resolvable_keys()
-UNRELATED = sorted(k for k, c in RESOLVABLE.items() if not (isinstance(c, type) and issubclass(c, Base)))
-RELATED = sorted(k for k, c in RESOLVABLE.items() if isinstance(c, type) and issubclass(c, Base))
+RESOLVABLE = dict((k, resolvable_keys(m)) for k, m in NSMAPS.items())
+NSMAP = NSMAPS['default=tns']
 
 
-def unrelated_xsi(xt):
-    """known-finding predicate: the xsi:type text names a registered class that does not derive from Base"""
+def unrelated_xsi(xt, scope='default=tns'):
+    """known-finding predicate: in this scope the xsi:type text names a registered class that does not derive from Base"""
     from symx.symctx import SymCtx
     from symx.api import ConcCtx
     sx = SymCtx() if not isinstance(xt, str) else ConcCtx({})
-    return sx.Or(*[sx.eq(xt, k) for k in UNRELATED if len(k) == len(xt)])
+    unrelated = sorted(k for k, c in RESOLVABLE[scope].items() if not (isinstance(c, type) and issubclass(c, Base)))
+    return sx.Or(*[sx.eq(xt, k) for k in unrelated if len(k) == len(xt)])
 
 
-LENS = sorted(set(len(k) for k in RESOLVABLE if len(k) <= 12))
+LENS = sorted(set(len(k) for m in RESOLVABLE.values() for k in m if len(k) <= 12))
 
 
-@harness('C04', params=[(pn, L) for pn in sorted(XPROTS) for L in LENS], label=lambda p: '%s len=%d' % p,
+@harness('C04', params=[(pn, L, sc) for pn in sorted(XPROTS) for L in LENS for sc in sorted(NSMAPS)],
+         label=lambda p: '%s len=%d %s' % p,
          functions=['spyne.protocol.xml.XmlDocument.from_element', 'spyne.protocol.xml.XmlDocument.complex_from_element'],
-         bounds={'xsi:type': 'every string of the lengths of the resolvable type names (<= 12 printable chars), '
-                             'nsmap with prefixes tns, xs, q and a default namespace'})
+         bounds={'xsi:type': 'every string of the lengths of the resolvable type names (<= 12 printable chars); three '
+                             'namespace scopes: default namespace = target namespace, default namespace foreign, no default'})
 def xsi_type_retag(sx, p):
     """a Base-typed element retagged with any xsi:type yields a Base (or registered subclass) instance or a
-    validation fault - never an instance of an unrelated class or a primitive"""
-    pname, L = p
+    validation fault - never an instance of an unrelated class or a primitive; names resolve in the namespace
+    scope of the element, not of the application"""
+    pname, L, scope = p
     prot = XPROTS[pname]
+    nsmap = NSMAPS[scope]
     xt = sx.text('xt', L)
-    el = mk_element(sx, '{tns}x', attrib={XSI_TYPE: xt}, nsmap=NSMAP,
-                    children=[mk_element(sx, '{tns}a', text='5', nsmap=NSMAP)])
+    el = mk_element(sx, '{tns}x', attrib={XSI_TYPE: xt}, nsmap=nsmap,
+                    children=[mk_element(sx, '{tns}a', text='5', nsmap=nsmap)])
     out = run_soft(lambda: prot.from_element(CTX, Base, el))
     sx.observe('accepted', out.accepted)
     if not out.accepted:
         return is_client_validation_fault(out.fault)
     sx.observe('type', type(out.value).__name__)
-    return out.value is None or isinstance(out.value, Base)
+    # accepted: the name must resolve in this scope, and to Base or a subclass of it
+    resolves = sx.Or(*[sx.eq(xt, k) for k in RESOLVABLE[scope] if len(k) == L])
+    return sx.And(resolves, out.value is None or isinstance(out.value, Base))
 
 
 # ---------------------------------------------------------------- JSON value kinds
